@@ -2256,6 +2256,9 @@ package go_clipper2
 //@ func clipperBase.doTopOfScanbeam
 //@   props C01 C17 C19 C02 C04 C05 C08 C09 C10
 //@   nosafety
+//@   loop 0 step [an-edge-passing-through-the-scanline-is-moved-to-its-x-there] (old(ae.top.Y) != y && old(ae.top.X != ae.bot.X) && y != old(ae.bot.Y)) ==> absI(toReal(old(ae).curX - old(ae.bot.X)) - old(ae.dx) * toReal(y - old(ae.bot.Y))) <= 0.5 + absI(old(ae.dx) * toReal(y - old(ae.bot.Y))) / toReal(pow2(51))
+//@   loop 0 step [an-edge-passing-through-the-scanline-is-the-next-one-visited-after-it] old(ae.top.Y) != y ==> ae == old(ae).nextInAEL
+//@   loop 0 step [a-vertical-edge-keeps-its-x] (old(ae.top.Y) != y && old(ae.top.X == ae.bot.X)) ==> old(ae).curX == old(ae.top.X)
 
 // kept opaque here: its own obligations need the vertex ring and the join preconditions
 //@ func clipperBase.updateEdgeIntoAEL
